@@ -277,7 +277,7 @@ fn swarm(rng: &mut Rng) -> Swarm {
         override_self: b(1, 6),
         positionals: b(3, 4),
         subs_negate: b(1, 5),
-        precedence: b(1, 8),
+        precedence: b(1, 4),
         missing_positional: b(1, 6),
         next_line: b(1, 5),
         actions_help: b(1, 6),
